@@ -172,6 +172,10 @@ func (g *scopeGen) fill(sc *Scope, si *scopeInfo, depth, maxDepth int) {
 	for i := 0; i < nstm; i++ {
 		n := g.pick()
 		switch x := r.Intn(20); {
+		case x == 5 && sc.Kind == "class" && r.Chance(1, 2):
+			// a name placed in the class namespace without a binding statement:
+			// lookups in the class body find it there first
+			body = append(body, &Stmt{K: "nsbind", N: n, Tag: g.tag("nsbind:" + where + ":" + role(n))})
 		case x == 6 && r.Chance(1, 2):
 			// the frame's namespace as the introspection builtins see it
 			body = append(body, &Stmt{K: "introspect", N: n, Form: []string{"locals", "eval", "eval"}[r.Intn(3)], Tag: g.tag("introspect:" + where + ":" + role(n))})
@@ -395,6 +399,8 @@ func renderStmts(b *strings.Builder, sc *Scope, stmts []*Stmt, ind int) {
 			}
 		case "use":
 			w("try:\n    log(\"%s\", %s)\nexcept NameError as _e:\n    log(\"%s\", exc_name(_e))", st.Tag, st.N, st.Tag)
+		case "nsbind":
+			w("locals()[\"%s\"] = \"%s\"", st.N, st.Tag)
 		case "snapdel":
 			snap := func(k string) {
 				w("try:\n    log(\"%s\", \"%s\", \"%s\" in locals(), eval(\"%s\"))\nexcept NameError as _e:\n    log(\"%s\", \"%s\", exc_name(_e))", st.Tag, k, st.N, st.N, st.Tag, k)
